@@ -450,7 +450,7 @@ def run(ctx: Ctx) -> None:
     if ctx.quick:
         shard_run(ctx, _shard, extra=(250, 25))
     else:
-        shard_run(ctx, _shard, extra=(4000, 60))
+        shard_run(ctx, _shard, extra=(12000, 60))
 
 
 def replay(ctx: Ctx, case: dict) -> None:
